@@ -32,6 +32,13 @@ def run(ctx):
             fn(ctx, "R10.6")
         except Skip:
             pass
+    ctx.rule("R10.7", "recv is cancellation-safe: it is one branch of the job task's select!, so after a control was taken from a queue no await precedes its return")
+    try:
+        jobrules.recv_cancel_safe(ctx, "R10.7")
+    except Skip:
+        pass
+    # a control's handler raises that control's own flag - never the job-gone flag, which would resolve every later ticket before its control ran (owned by C07)
+    ctx.borrow("C07", ["R07.2"], "R10.6", "flags leaving holders are the ones raised on every path of the process-end handler")
     try:
         jobrules.check_api_table(ctx, "R10.3")
     except Skip:
